@@ -263,7 +263,7 @@ def _make_p1b(detail):
 
 
 # --------------------------------------------------------------------------------------------- P2 reproducibility
-HISTORIES = ["same-object-twice", "fresh-objects", "after-other-pipeline", "shared-orchestrator-other-config", "same-object-after-failing-run"]
+HISTORIES = ["same-object-twice", "fresh-objects", "after-other-pipeline", "shared-orchestrator-other-config", "same-object-after-failing-run", "shared-orchestrator-other-detail", "same-object-untraced-first"]
 _VOLATILE_TOP = ("run_id", "timestamp", "seq")
 
 
@@ -363,6 +363,23 @@ def _p2_scenario(cfg_name: str, hist: int, detail: str):
         run(Pipeline([dict(n) for n in cfgs["other-sweep"]], logger=lib.QUIET, trace=new_driver()[0], orchestrator=orch))
         d1, p1 = new_driver()
         run(Pipeline([dict(n) for n in cfg], logger=lib.QUIET, trace=d1, orchestrator=orch))
+        got = read(p1)
+    elif hname == "shared-orchestrator-other-detail":
+        # the orchestrator first served a run traced with OTHER detail flags
+        other = "hash" if detail != "hash" else "all"
+        orch = LocalSemantivaOrchestrator()
+        px = os.path.join(base, "r-%s.jsonl" % uuid.uuid4().hex[:10])
+        run(Pipeline([dict(n) for n in cfg], logger=lib.QUIET, trace=JsonlTraceDriver(px, detail=other), orchestrator=orch))
+        d1, p1 = new_driver()
+        run(Pipeline([dict(n) for n in cfg], logger=lib.QUIET, trace=d1, orchestrator=orch))
+        got = read(p1)
+    elif hname == "same-object-untraced-first":
+        # one Pipeline object: an untraced run first, then the trace driver is attached and it runs again
+        pl = Pipeline([dict(n) for n in cfg], logger=lib.QUIET)
+        run(pl)
+        d1, p1 = new_driver()
+        pl.trace = d1
+        run(pl)
         got = read(p1)
     else:  # same-object-after-failing-run: a failing run in between on a shared orchestrator
         orch = LocalSemantivaOrchestrator()
